@@ -49,7 +49,7 @@ var (
 
 func c10InstallHook() {
 	c10HookOnce.Do(func() {
-		vuego.SetVerifHook(func(point, a, b int) {
+		addHook(func(point, a, b int) {
 			switch point {
 			case vuego.VerifPoolGet:
 				c10PoolGets.Add(1)
